@@ -1635,10 +1635,12 @@ the receiver, nothing happens.
 func (r *stack) lock() {
 	if r.canMutex() {
 		if mutex, found := r.mutex(); found {
+			verifPoint("lock.want", r, mutex)
 			sc, _ := r.config()
 			_now := now()
 			sc.ldr = &_now
 			mutex.Lock()
+			verifPoint("lock.held", r, mutex)
 		}
 	}
 }
@@ -1651,7 +1653,9 @@ the receiver, nothing happens.
 func (r *stack) unlock() {
 	if r.canMutex() {
 		if mutex, found := r.mutex(); found {
+			verifPoint("lock.release", r, mutex)
 			mutex.Unlock()
+			verifPoint("lock.released", r, mutex)
 			sc, _ := r.config()
 			sc.ldr = nil
 		}
